@@ -73,6 +73,8 @@ func c20BuildProp(k *verifkit.Kit) func(c c20Build) error {
 
 // --- Serve -----------------------------------------------------------------------
 
+const c20Sentinel = "VERIF-END-OF-NOTIFICATIONS"
+
 type c20Task struct {
 	FailNS   int64 `json:"fail_ns"`    // >0: Run returns an error at this instant (unless cancelled before)
 	NilNS    int64 `json:"nil_ns"`     // >0: Run returns nil at this instant
@@ -192,6 +194,9 @@ func c20ServeProp(t *testing.T, k *verifkit.Kit) func(c c20Serve) error {
 				if err != nil {
 					return
 				}
+				if string(buf[:nn]) == c20Sentinel {
+					return
+				}
 				notes = append(notes, string(buf[:nn]))
 			}
 		}()
@@ -232,9 +237,16 @@ func c20ServeProp(t *testing.T, k *verifkit.Kit) func(c c20Serve) error {
 			case <-time.After(10 * time.Minute):
 			}
 		})
-		// everything sent is queued in the socket by now (sends are synchronous):
-		// the reader drains it and then runs into the deadline
-		_ = pc.SetReadDeadline(time.Now().Add(20 * time.Millisecond))
+		// Everything the server sent is queued in the socket by now (sends are synchronous) and
+		// datagrams are delivered in order: a sentinel sent by the harness ends the reader once it
+		// has read all of them. (A read deadline would not do: an expired deadline fails a read
+		// even when data is queued, so a reader that is scheduled late loses notifications.)
+		if sc, err := net.Dial("unixgram", pc.LocalAddr().String()); err == nil {
+			_, _ = sc.Write([]byte(c20Sentinel))
+			sc.Close()
+		} else {
+			pc.Close()
+		}
 		<-readerDone
 		if pan != nil {
 			return verifkit.Violf("panic", "panic in bubble: %v", pan)
